@@ -1,0 +1,9 @@
+//go:build !verif
+
+package engine
+
+func verifEvent(string, string, int, error)          {}
+func verifBind(*runAwaitHandle, string)              {}
+func verifAwait(*runAwaitHandle, string, int, error) {}
+func verifEngine(*Engine, string)                    {}
+func verifWrapWaitDone(_ string, f func()) func()    { return f }
